@@ -3,6 +3,7 @@ package props
 import (
 	"encoding/json"
 	"fmt"
+	"reflect"
 	"regexp"
 	"runtime"
 	"sort"
@@ -79,25 +80,38 @@ var freshRunners int
 // re-cased that text the address can no longer be masked. Two evaluations against one built data object agree while an
 // evaluation against a second, equal build differs. Such outcomes are not comparable between builds (nor processes).
 func addressSensitive(sc *formula.SourceCode, data val.V) bool {
+	// only a formula that reads a value under which a heap address is formatted (or the data as a whole) can be
+	reads := false
+	obs.Walk(sc.Expression, func(e formula.Expression) {
+		switch n := e.(type) {
+		case *formula.Identifier:
+			for i := range data.M {
+				if data.M[i].K == n.Value && !reflect.DeepEqual(val.StripAddr(data.M[i].V), data.M[i].V) {
+					reads = true
+				}
+			}
+		case *formula.LiteralExpression:
+			if n.Token == formula.SK_ThisKeyword {
+				reads = true
+			}
+		}
+	})
+	if !reads {
+		return false
+	}
 	m, _ := val.Build(data, &val.Env{}).(map[string]interface{})
 	own := map[string]bool{}
 	for k := range m {
 		own[k] = true
 	}
 	on := func() string {
-		r := formula.NewRunner()
-		r.SetThis(m)
-		var v interface{}
-		var err error
-		ctx, release := hostCtxFor(sc)
-		defer release()
-		p, pv := core.Call(func() { v, err = r.Resolve(ctx, sc.Expression) })
+		_, o := evalOnMap(sc, m)
 		for k := range m {
 			if !own[k] {
 				delete(m, k)
 			}
 		}
-		return outcome(v, err, p, pv)
+		return o
 	}
 	a1, a2 := on(), on()
 	if a1 != a2 {
@@ -135,6 +149,46 @@ func evalTreeKeep(sc *formula.SourceCode, data val.V) (interface{}, string) {
 // Evaluation does not modify nested data (C07); a mutant that does is seen as a difference between the repeats.
 var builtCache = map[*val.KV]map[string]interface{}{}
 
+// builtSnap: what each cached build held when it was built. Evaluations get shallow copies of the build, so whatever
+// they leave in it afterwards (a list member converted in place, a map entry added) is a change to the caller's data.
+var builtSnap = map[*val.KV]string{}
+
+func mapSnapshot(m map[string]interface{}) string {
+	keys := make([]string, 0, len(m))
+	for k := range m {
+		keys = append(keys, k)
+	}
+	sort.Strings(keys)
+	var sb strings.Builder
+	for _, k := range keys {
+		sb.WriteString(k)
+		sb.WriteByte('=')
+		sb.WriteString(obs.Snapshot(m[k]))
+		sb.WriteByte('\n')
+	}
+	return sb.String()
+}
+
+// builtChanged reports the first difference between the cached build of a spec and what it held when built (and
+// forgets the build, so that later cases start from intact data).
+func builtChanged(data val.V) string {
+	if len(data.M) == 0 {
+		return ""
+	}
+	key := &data.M[0]
+	m, ok := builtCache[key]
+	if !ok {
+		return ""
+	}
+	if now := mapSnapshot(m); now != builtSnap[key] {
+		d := firstDiff(builtSnap[key], now)
+		delete(builtCache, key)
+		delete(builtSnap, key)
+		return d
+	}
+	return ""
+}
+
 func builtFor(data val.V) map[string]interface{} {
 	if len(data.M) == 0 {
 		m, _ := val.Build(data, &val.Env{}).(map[string]interface{})
@@ -146,9 +200,11 @@ func builtFor(data val.V) map[string]interface{} {
 	}
 	if len(builtCache) > 32 {
 		builtCache = map[*val.KV]map[string]interface{}{}
+		builtSnap = map[*val.KV]string{}
 	}
 	m, _ := val.Build(data, &val.Env{}).(map[string]interface{})
 	builtCache[key] = m
+	builtSnap[key] = mapSnapshot(m)
 	return m
 }
 
@@ -201,6 +257,14 @@ var c08Pure = core.Mon(c08, "repeat-and-interleave", func(w *core.W, c *PureCase
 		return
 	}
 	w.Count("pairs")
+	defer func() {
+		// every evaluation of this case ran over (a shallow copy of) one build of the data: it still holds what it was built with
+		w.Count("data_builds_compared")
+		if d := builtChanged(c.Data); d != "" {
+			w.Violation("repeat-and-interleave", "C08/evaluation-changed-callers-data", c, "the data as built", d,
+				fmt.Sprintf("after the evaluations of %q (and of %d other formulas) the caller's data object no longer holds what it was built with", clipS(c.Src, 120), len(c.Foreign)))
+		}
+	}()
 	d0 := obs.FullDump(sc)
 	w.Count("tree_dumps_compared")
 	if de, d2 := obs.FullDump(sc.Expression), obs.FullDump(sc2.Expression); d2 != de {
